@@ -36,6 +36,20 @@ fn build_auth(cfg: &Value, store: AnyStore, user: &Value, sh: SharedRef, tag: Op
     if let Some(n) = cfg["id_len"].as_u64() {
         auth.set_make_credential_id_length(CredentialIdLength::from(n as u8));
     }
+    if let Some(ts) = cfg["transports"].as_array() {
+        // explicit transports list (may be empty or contain duplicates): Authenticator::transports(..)
+        let list: Vec<webauthn::AuthenticatorTransport> = ts
+            .iter()
+            .map(|t| match t.as_str().unwrap_or("") {
+                "usb" => webauthn::AuthenticatorTransport::Usb,
+                "nfc" => webauthn::AuthenticatorTransport::Nfc,
+                "ble" => webauthn::AuthenticatorTransport::Ble,
+                "hybrid" => webauthn::AuthenticatorTransport::Hybrid,
+                _ => webauthn::AuthenticatorTransport::Internal,
+            })
+            .collect();
+        auth = auth.transports(list);
+    }
     if !cfg["hmac"].is_null() {
         let mut hc = if cfg["hmac"]["without_uv"].as_bool().unwrap_or(false) {
             HmacSecretConfig::new_without_uv()
@@ -234,7 +248,7 @@ fn info_result(r: ctap2::get_info::Response) -> Value {
         "aaguid": hex(&r.aaguid.0),
         "rk": r.options.as_ref().map(|o| o.rk), "uv": r.options.as_ref().and_then(|o| o.uv), "up": r.options.as_ref().map(|o| o.up),
         "max_msg_size": r.max_msg_size.is_some(), "pin_protocols": r.pin_protocols.is_some(),
-        "transports": r.transports.as_ref().map(|t| t.len()),
+        "transports": r.transports.as_ref().map(|t| t.iter().map(|x| format!("{:?}", x)).collect::<Vec<_>>()),
     }})
 }
 
@@ -524,6 +538,12 @@ fn sequential(case: &Value) -> Value {
 fn concurrent(case: &Value) -> Value {
     let sh: SharedRef = Arc::new(Mutex::new(Shared::default()));
     sh.lock().unwrap().yield_before_calls = true;
+    if let Some(f) = case["faults"].as_array() {
+        let mut s = sh.lock().unwrap();
+        for x in f {
+            s.faults.insert(x["at"].as_u64().unwrap() as usize, x["code"].as_u64().unwrap() as u8);
+        }
+    }
     let base = AnyStore::from_json(&case["store"]);
     let ops = case["ceremonies"].as_array().unwrap();
     let mut auths: Vec<Auth> = (0..ops.len())
